@@ -299,6 +299,12 @@ func (p *Program) LookupField(pkgPath, typeName, field string) *types.Var {
 			return st.Field(i)
 		}
 	}
+	// a field promoted from an embedded struct (state grouped on a sub-struct)
+	if obj, _, _ := types.LookupFieldOrMethod(tn.Type(), true, tn.Pkg(), field); obj != nil {
+		if v, ok := obj.(*types.Var); ok && v.IsField() {
+			return v
+		}
+	}
 	return nil
 }
 
